@@ -302,7 +302,35 @@ def cut(relpath, qualname, module, rules=ALL_RULES, limits=None, extra_ns=None, 
     ns.update(make_helpers(limits or Limits()))
     ns.update(extra_ns or {})
     exec(compile(mod, f'<floatcut {relpath}:{qualname}>', 'exec'), ns)
-    return CutResult(ns[node.name], c.applied, node, seg, ast.unparse(new), ns)
+    res = CutResult(ns[node.name], c.applied, node, seg, ast.unparse(new), ns)
+    res.module = module
+    res.qualname = qualname
+    res.ref = f'{relpath}:{node.lineno} {qualname}'
+    return res
+
+
+def install(res):
+    """Make a cut module-level function visible to its real callers: every attribute of every loaded in-repo
+    module that IS the original function object is rebound to the cut function (this covers `from x import f`
+    copies).  Only done inside CrossHair worker processes; returns the list of patched 'module.attr' names.
+    The cut function itself keeps running in a copy of its module's namespace taken at cut time, so cut callees
+    must be installed BEFORE their callers are cut."""
+    import sys
+    if not res.applied:
+        return []
+    orig = getattr(res.module, res.node.name, None)
+    if orig is None or '.' in res.qualname:
+        raise HarnessError(f'install: {res.qualname} is not a module-level function')
+    patched = []
+    for mname, m in list(sys.modules.items()):
+        if m is None or mname.split('.')[0] not in loader.INREPO:
+            continue
+        for attr, val in list(vars(m).items()):
+            if val is orig:
+                setattr(m, attr, res.fn)
+                patched.append(f'{mname}.{attr}')
+    res.orig = orig
+    return patched
 
 
 # ------------------------------------------------------------------------------------------------
@@ -341,6 +369,79 @@ def lemma_rint(bits, goal=True):
     return t
 
 
+def lemma_mdiv(b, p, pmax, m_bits, goal=True):
+    """Bucket lemma for r = to_sbv_RTP(fp.mul(fp.div(m, b), 1000)) (= math.ceil((m / b) * 1000)):
+       p = 0      : 0 <= m <= b/4                  =>  0 <= r <= 250
+       1..pmax    : 2^(p-1) b/4 < m <= 2^p b/4     =>  250*2^(p-1) < r <= 250*2^p
+       pmax + 1   : 2^pmax b/4 < m < 2^m_bits      =>  r > 250*2^pmax        (b is a multiple of 4)"""
+    assert b % 4 == 0
+    t = _HDR + '(declare-const m (_ BitVec 64))\n'
+    lo = None if p == 0 else (b << (p - 1)) // 4
+    hi = (b << p) // 4 if p <= pmax else None
+    if lo is not None:
+        t += f'(assert (bvugt m {_bv(lo)}))\n'
+    t += f'(assert (bvule m {_bv(hi)}))\n' if hi is not None else f'(assert (bvult m {_bv(1 << m_bits)}))\n'
+    t += f'(define-fun q () Float64 (fp.div RNE ({_F} RNE m) ({_F} RNE {_bv(b)})))\n'
+    t += f'(define-fun y () Float64 (fp.mul RNE q ({_F} RNE 1000.0)))\n'
+    t += '(define-fun r () (_ BitVec 64) ((_ fp.to_sbv 64) RTP y))\n'
+    conj = []
+    if p == 0:
+        conj += [f'(bvsge r {_bv(0)})', f'(bvsle r {_bv(250)})']
+    else:
+        conj.append(f'(bvsgt r {_bv(250 << (p - 1))})')
+        if p <= pmax:
+            conj.append(f'(bvsle r {_bv(250 << p)})')
+    if goal:
+        t += f'(assert (not (and {" ".join(conj)} true)))\n'
+    return t
+
+
+def lemma_clog2(k, bits, goal=True):
+    """1 <= x < 2^bits:  (x <= 1000*2^k  =>  fl(x/1000) <= 2^k)  and  (x > 1000*2^k  =>  fl(x/1000) >= 2^k (1 + 2^-31))."""
+    import fractions
+    t = _HDR + '(declare-const x (_ BitVec 64))\n'
+    t += f'(assert (bvuge x {_bv(1)}))\n(assert (bvult x {_bv(1 << bits)}))\n'
+    t += f'(define-fun y () Float64 (fp.div RNE ({_F} RNE x) ({_F} RNE 1000.0)))\n'
+    pw = fractions.Fraction(2) ** k
+    up = pw * (1 + fractions.Fraction(1, 2 ** 31))          # exactly representable (k >= -11: 2^(k-31) >= ulp)
+    le = f'(bvule (bvshl x {_bv(-k)}) {_bv(1000)})' if k < 0 else f'(bvule x {_bv(1000 << k)})'
+
+    def lit(fr):
+        return f'(fp.div RNE ({_F} RNE {_bv(fr.numerator)}) ({_F} RNE {_bv(fr.denominator)}))'   # exact: den is 2^j
+
+    t += f'(define-fun pw () Float64 {lit(pw)})\n(define-fun up () Float64 {lit(up)})\n'
+    if goal:
+        t += f'(assert (not (and (=> {le} (fp.leq y pw)) (=> (not {le}) (fp.geq y up)))))\n'
+    return t
+
+
+def lemma_scale(b, jmax, goal=True):
+    """x = 250 * 2^j, 0 <= j <= jmax:  to_sbv_RTZ(fp.mul(fp.div(x, 1000), b)) == x * b div 1000."""
+    t = _HDR + '(declare-const j (_ BitVec 64))\n'
+    t += f'(assert (bvule j {_bv(jmax)}))\n'
+    t += f'(define-fun x () (_ BitVec 64) (bvshl {_bv(250)} j))\n'
+    t += f'(define-fun y () Float64 (fp.mul RNE (fp.div RNE ({_F} RNE x) ({_F} RNE 1000.0)) ({_F} RNE {_bv(b)})))\n'
+    t += '(define-fun r () (_ BitVec 64) ((_ fp.to_sbv 64) RTZ y))\n'
+    # x * b < 2^64 must not wrap: x < 2^32, b < 2^34 (asserted by the caller's table)
+    if goal:
+        t += f'(assert (not (= r (bvudiv (bvmul x {_bv(b)}) {_bv(1000)}))))\n'
+    return t
+
+
+def lemma_cdiv(divisors, bits, goal=True):
+    """0 <= a < 2^bits: to_sbv_RTP(a / c1 / c2 / ...) == (a + D - 1) div D, D = prod c_i (powers of two)."""
+    d = 1
+    t = _HDR + '(declare-const a (_ BitVec 64))\n' + f'(assert (bvult a {_bv(1 << bits)}))\n'
+    e = f'({_F} RNE a)'
+    for c in divisors:
+        e = f'(fp.div RNE {e} ({_F} RNE {_bv(c)}))'
+        d *= c
+    t += f'(define-fun r () (_ BitVec 64) ((_ fp.to_sbv 64) RTP {e}))\n'
+    if goal:
+        t += f'(assert (not (= r (bvudiv (bvadd a {_bv(d - 1)}) {_bv(d)}))))\n'
+    return t
+
+
 def lemma_jobs(rule, lim, timeout_s=120):
     """[(key, smt_text_goal, smt_text_twin, description)] covering exactly what the helper of `rule` admits."""
     jobs = []
@@ -356,9 +457,42 @@ def lemma_jobs(rule, lim, timeout_s=120):
     elif rule == 'rint':
         jobs.append((f'rint i < 2^{lim.rint_bits}', lemma_rint(lim.rint_bits), lemma_rint(lim.rint_bits, False),
                      'Float64: int(i + 0.5) == i for int i >= 0'))
+    elif rule == 'mdiv':
+        for b in lim.mdiv_Bs:
+            for p in range(lim.mdiv_pmax + 2):
+                jobs.append((f'mdiv B={b} bucket {p}', lemma_mdiv(b, p, lim.mdiv_pmax, lim.mdiv_m_bits),
+                             lemma_mdiv(b, p, lim.mdiv_pmax, lim.mdiv_m_bits, False),
+                             'Float64: ceil((m / B) * 1000) lies in the same bucket (250*2^(p-1), 250*2^p] as ceil(1000m/B)'))
+    elif rule == 'clog2':
+        for k in range(CLOG2_PLO - 1, CLOG2_PHI + 1):
+            jobs.append((f'clog2 k={k} x < 2^{lim.clog2_bits}', lemma_clog2(k, lim.clog2_bits),
+                         lemma_clog2(k, lim.clog2_bits, False),
+                         'Float64: x <= 1000*2^k => x/1000 <= 2^k; x > 1000*2^k => x/1000 >= 2^k(1+2^-31)'))
+    elif rule == 'scale':
+        for b in lim.scale_Bs:
+            assert b < (1 << 34) and lim.scale_jmax <= 23
+            jobs.append((f'scale B={b} x=250*2^j j<={lim.scale_jmax}', lemma_scale(b, lim.scale_jmax),
+                         lemma_scale(b, lim.scale_jmax, False), 'Float64: int((x / 1000) * B) == x*B//1000 for x = 250*2^j'))
+    elif rule == 'cdiv':
+        for divs in getattr(lim, 'cdiv_divisors', [(1024, 1024, 1024)]):
+            jobs.append((f'cdiv {list(divs)} a < 2^{lim.cdiv_bits}', lemma_cdiv(divs, lim.cdiv_bits),
+                         lemma_cdiv(divs, lim.cdiv_bits, False), 'Float64: ceil(a / c1 / c2 / ...) == -(-a // (c1*c2*...))'))
     else:
         raise HarnessError(f'no lemma for rule {rule}')
     return jobs
+
+
+def libm_log2_points():
+    """The part of the clog2 justification that SMT-LIB cannot express (libm): math.log2 is exact on the powers of
+    two of the table (checked here concretely, returns the number of points) and - ASSUMED - monotone with absolute
+    error < 2^-32 on [2^-11, 2^22]."""
+    import math
+    n = 0
+    for k in range(CLOG2_PLO - 1, CLOG2_PHI + 2):
+        if math.log2(2.0 ** k) != float(k):
+            raise HarnessError(f'math.log2(2**{k}) is not exact on this platform')
+        n += 1
+    return n
 
 
 def prove(R, rules, lim, timeout_s=120, workers=8, solver='z3new', second=None):
